@@ -267,4 +267,35 @@ class reverse_reaction(Derivation):
         return sp
 
 
-DERIVATIONS = {"reverse_reaction": reverse_reaction, "subgraph(any size)": subgraph_any, "copy": copy, "copy_constructor": copy_constructor, "relabel_atoms(copy=True)": relabel_copy, "subgraph": subgraph, "enantiomer": enantiomer}
+class _side(Derivation):
+    """C08: reactant() / product() of a CondensedReactionGraph: the atoms with their attributes, the bonds that exist on
+    that side (unlabelled, or BROKEN for the reactant / FORMED for the product) with their attributes minus the label;
+    a new MolGraph"""
+    classes = ("CondensedReactionGraph",)
+    keep_label = "BROKEN"
+    method = "reactant"
+
+    def result_class(self, cname):
+        return "MolGraph"
+
+    def call(self, it, g, cname):
+        return ("method", self.method, [], {}), {}
+
+    def on_side(self, v, b):
+        lab = v.battr_val(b, H.K_REACTION)
+        return z3.And(v.bond(b), z3.Or(z3.Not(v.battr_has(b, H.K_REACTION)), lab == H.ValS.VChg(H.CHG[self.keep_label])))
+
+    def spec(self, v, s, cname):
+        return {"bond": lambda b: self.on_side(v, b),
+                "battr_has": lambda b, k: z3.And(v.battr_has(b, k), k != H.K_REACTION)}
+
+
+class reactant(_side):
+    keep_label, method = "BROKEN", "reactant"
+
+
+class product(_side):
+    keep_label, method = "FORMED", "product"
+
+
+DERIVATIONS = {"reactant": reactant, "product": product, "reverse_reaction": reverse_reaction, "subgraph(any size)": subgraph_any, "copy": copy, "copy_constructor": copy_constructor, "relabel_atoms(copy=True)": relabel_copy, "subgraph": subgraph, "enantiomer": enantiomer}
